@@ -14,7 +14,7 @@ KINDS = ('dt_off', 'dt_on', 'dt_on_past', 'ct_off', 'ct_on')
 DT_FULL = Profile(tbin=('since', 'until'), max_depth=4, reuse=0.3)
 DT_PAST = Profile(un_temp=F.UN_PAST, bin_temp=F.BIN_PAST, tun=F.TUN_PAST, tbin=F.TBIN_PAST, max_depth=4, reuse=0.3)
 DT_BFUT = Profile(un_temp=F.UN_PAST + ('next', 's_next'), bin_temp=F.BIN_PAST, tbin=('since', 'until'), max_depth=4, max_bound=3,
-                  reuse=0.3, no_future_under_past=True)
+                  reuse=0.3)
 CT_OFF = DENSE.copy(reuse=0.3)
 CT_ON = DENSE_PAST.copy(reuse=0.3)
 
